@@ -377,7 +377,29 @@ func allFoundShape(f *chk.Fn, a, b int, onMissing bool) string {
 		return ok && as.Tok.String() == ":=" && len(as.Lhs) == 1 && f.ObjOf(as.Lhs[0]) == flag && f.IsConstBool(as.Rhs[0], false) && chk.InBody(outer[0], n) && !chk.InBody(inner[0], n)
 	})
 	if len(decl) != 1 {
-		return "the found-flag is not reset to false for every element of the outer list"
+		// declared without a value (`var found bool`: false) inside the outer loop, outside the inner one - the form an
+		// expanded slices.ContainsFunc leaves; any other assignment to it outside the inner loop is `= false`
+		nDecl, okOther := 0, true
+		ast.Inspect(outer[0].Body, func(n ast.Node) bool {
+			switch y := n.(type) {
+			case *ast.ValueSpec:
+				for _, nm := range y.Names {
+					if f.Info().Defs[nm] == flag && len(y.Values) == 0 && !chk.InBody(inner[0], y) {
+						nDecl++
+					}
+				}
+			case *ast.AssignStmt:
+				for i, l := range y.Lhs {
+					if f.ObjOf(l) == flag && len(y.Lhs) == len(y.Rhs) && !chk.InBody(inner[0], y) && !f.IsConstBool(y.Rhs[i], false) {
+						okOther = false
+					}
+				}
+			}
+			return true
+		})
+		if len(decl) != 0 || nDecl != 1 || !okOther {
+			return "the found-flag is not reset to false for every element of the outer list"
+		}
 	}
 	es := g.EdgesImplying(chk.GBool(false, f.IsObj(flag)))
 	if len(es) == 0 {
@@ -3388,4 +3410,20 @@ func fetchCheckedRule(p *chk.Prog, r *chk.Report) {
 		}
 	}
 	_ = n
+}
+
+// unconv strips parentheses and type conversions: (T)(x) -> x (a function literal converted to a named function type
+// is still that literal).
+func unconv(f *chk.Fn, e ast.Expr) ast.Expr {
+	for {
+		e = ast.Unparen(e)
+		c, ok := e.(*ast.CallExpr)
+		if !ok || len(c.Args) != 1 {
+			return e
+		}
+		if tv, has := f.Info().Types[c.Fun]; !has || !tv.IsType() {
+			return e
+		}
+		e = c.Args[0]
+	}
 }
